@@ -14,7 +14,9 @@ PROP = "C01"
 
 def main():
   rep = vlib.Report(PROP, "proof")
-  info = vlib.build_obligations(PROP)
+  from translate import reportgen
+  rgen = reportgen.emit(vlib.GEN)
+  info = vlib.build_obligations(PROP, gen_files=[rgen], extra_files=[os.path.join(vlib.COQ, "theories", "Link", "ReportLink.v")])
   errs = rep.obligations(info, "coqc -Q coq/theories QV coq/theories/Properties/C01.v (Print Assumptions under every theorem)")
   for e in errs:
     rep.violation("obligation-" + os.path.basename(e["file"]), "proof obligation no longer checks: " + e["error"][-400:],
